@@ -251,11 +251,28 @@ def _dims(case):
     raise ValueError(fn)
 
 
+# ----------------------------------------------------------------------------- width calls: the fill value
+def _wfill(case):
+    n, w = case["n"], case["w"]
+    fs = Fraction(*case["s"])
+    arr = xr.DataArray(np.arange(1, n + 1, dtype=float), dims=["x"], coords={"x": axis(case["a4"], case["s"], n, attrs={"step": float(fs)})})
+    before = snapshot(arr)
+    fill = float(Fraction(*case["fill"]))
+    kw = {"position": case["pos"]}
+    if fill != 0:
+        kw["fill_value"] = fill
+    try:
+        out = (ops.adjust_dim_width if case["fn"] == "adjust" else ops.extend_dim_width)(arr, "x", w, **kw)
+    except (ValueError, KeyError, IndexError) as ex:
+        return {"raised": type(ex).__name__, "vals": [], **untouched(before, arr)}
+    return {"raised": "", "vals": [limbs(v) for v in np.asarray(out.data, dtype=float)], **untouched(before, arr)}
+
+
 def execute(case):
     with warnings.catch_warnings():
         warnings.simplefilter("ignore")
         k = case["kind"]
-        return {"alg": _alg, "db": _db, "resize": _resize, "adjust": _adjust, "dims": _dims}[k](case)
+        return {"alg": _alg, "db": _db, "resize": _resize, "adjust": _adjust, "dims": _dims, "wfill": _wfill}[k](case)
 
 
 # ----------------------------------------------------------------------------- larger universe (seeded)
